@@ -14,12 +14,13 @@ package sim
 // undelivered frames, following grpc-go's observable stream contract.
 
 import (
-	"sync/atomic"
-	"runtime"
 	"context"
 	"fmt"
 	"io"
+	"runtime"
 	"sync"
+	"sync/atomic"
+	"time"
 
 	"github.com/jhump/grpctunnel/tunnelpb"
 	"google.golang.org/grpc"
@@ -267,6 +268,11 @@ func (c *cliStream[Req, Res]) Trailer() metadata.MD { return nil }
 func (c *cliStream[Req, Res]) CloseSend() error {
 	defer c.l.useSend(&c.l.cSending, "client")()
 	c.l.w.logf("carrier-closesend tunnel=%d", c.l.id)
+	if c.l.w.free {
+		// CloseSend happens once per tunnel: linger inside the section, so that a Send that is
+		// not serialised with it by the library's wrapper does overlap
+		time.Sleep(3 * time.Millisecond)
+	}
 	c.l.up.finish(nil)
 	return nil
 }
@@ -281,14 +287,16 @@ func (c *cliStream[Req, Res]) SendMsg(m any) error {
 
 // useSend: a gRPC stream allows one goroutine at a time in SendMsg / CloseSend (SendMsg on the
 // server side). The library serialises them with its thread-safe wrappers; the carrier notices
-// when two calls overlap (code 1502). In free-running mode the call yields once inside the
+// when two calls overlap (code 1502). In free-running mode the call yields a few times inside the
 // section so that an overlap that is possible also happens.
 func (l *link) useSend(ctr *atomic.Int32, side string) func() {
 	if n := ctr.Add(1); n > 1 {
 		l.w.logf("harnessfail code=1502 a=%d b=%d", l.id, n)
 	}
 	if l.w.free {
-		runtime.Gosched()
+		for i := 0; i < 3; i++ {
+			runtime.Gosched()
+		}
 	}
 	return func() { ctr.Add(-1) }
 }
